@@ -185,6 +185,10 @@ class LockStub(StubObj):
     def __init__(self, locked=False):
         self.is_locked = locked
 
+    @property
+    def f_is_locked(self):
+        return self.is_locked
+
     def m_locked(self, it):
         return self.is_locked
 
